@@ -251,27 +251,34 @@ def R(k00: int, k01: int, k02: int, k03: int, k10: int, k11: int, k12: int, k13:
     kinds = realise(uni, kinds, n)
     if kinds is None:
         return True
-    with untraced():
-        files = build(uni, kinds, n, writable=False)
-        try:
-            T = fold(roots(files))
-        except Invalid:
-            T = None
-    if T is None:
-        return True
+    # every kind is concrete by now: no symbolic value is in flight, so the real code runs in the
+    # tracer-free helper process (identical result, much faster); SEL trace=1 keeps it in-process
+    if SEL.get("trace"):
+        r = r_native(uni, kinds, n)
+    else:
+        r = P_.native_call("vt.harness.c01", "r_native", uni, kinds, n)
+    if r is None:
+        return True  # stack outside Inv
     reach()
-    # every kind is concrete by now: no symbolic value is in flight, so the real code runs with
-    # tracing suspended (identical result, ~50x faster); SEL trace=1 keeps tracing on
-    with (untraced() if not SEL.get("trace") else P_._Null()):
-        r = mkrecord(files)
-        return view(r) == T and lookups_ok(r, T)
+    return r
+
+
+def r_native(uni, kinds, n):
+    files = build(uni, kinds, n, writable=False)
+    try:
+        T = fold(roots(files))
+    except Invalid:
+        return None
+    r = mkrecord(files)
+    return view(r) == T and lookups_ok(r, T)
 
 
 # ---------------------------------------------------------------------------------------
 # (W) one write step
 
 OPS = ["create_group", "setitem", "delitem", "attr_set", "attr_del", "require_group", "set_delvalue",
-       "create_dataset", "require_dataset", "copy", "move", "ds_write", "set_node", "copy_into_patch"]
+       "create_dataset", "require_dataset", "copy", "move", "ds_write", "set_node", "copy_into_patch",
+       "copy_shallow", "copy_noattrs", "copy_node"]
 WPATHS = ["a", "a/x", "a/x/q", "b", "b/c", "/a", "a/y", "/", "a@k", ""]
 NEWV = 7777
 
@@ -279,6 +286,11 @@ NEWV = 7777
 def apply_op(r, op, p, q, is_ih5=True):
     """Run one user operation; returns ("ok", info) or ("exc", class name)."""
     try:
+        base = SEL.get("base")
+        if base:  # operate through a sub-group handle (relative paths resolve against it)
+            r = r[base]
+            if not isinstance(r, (IH5Group, fakeh5.Group)):
+                return ("exc", "BaseNotAGroup")
         if op == "create_group":
             g = r.create_group(p)
             return ("ok", g.name)
@@ -306,6 +318,15 @@ def apply_op(r, op, p, q, is_ih5=True):
             return ("ok", None)
         if op == "copy":
             r.copy(p, q)
+            return ("ok", None)
+        if op == "copy_shallow":
+            r.copy(p, q, shallow=True)
+            return ("ok", None)
+        if op == "copy_noattrs":
+            r.copy(p, q, without_attrs=True)
+            return ("ok", None)
+        if op == "copy_node":
+            r.copy(r[p], r.require_group(q))
             return ("ok", None)
         if op == "move":
             r.move(p, q)
@@ -357,17 +378,23 @@ def W(k00: int, k01: int, k02: int, k03: int, k10: int, k11: int, k12: int, k13:
     kinds = realise(uni, kinds, n)
     if kinds is None:
         return True
-    with untraced():
-        files = build(uni, kinds, n, writable=True)
-        try:
-            T = fold(roots(files))
-        except Invalid:
-            T = None
-    if T is None:
+    if SEL.get("trace"):
+        r = w_native(uni, kinds, n, op, p, q)
+    else:
+        r = P_.native_call("vt.harness.c01", "w_native", uni, kinds, n, op, p, q)
+    if r is None:
         return True
     reach()
-    with (untraced() if not SEL.get("trace") else P_._Null()):
-        return w_check(files, T, op, p, q)
+    return r
+
+
+def w_native(uni, kinds, n, op, p, q):
+    files = build(uni, kinds, n, writable=True)
+    try:
+        T = fold(roots(files))
+    except Invalid:
+        return None
+    return w_check(files, T, op, p, q)
 
 
 def w_check(files, T, op, p, q):
